@@ -13,7 +13,7 @@ namespace Nun
 /-- every database of the primary (but the administrative one) is announced by a full
 resynchronisation -/
 theorem C05_full_sync_names_every_db (n : Node) (name : Bytes) (db : Db) (h : (name, db) ∈ n.dbs) (hn : db.name ≠ Gen.adminDb) :
-    createDbCmd db ∈ n.fullSyncOps ∧ (b!"replicate-snapshot " ++ db.name) ∈ n.fullSyncOps := by
+    createDbCmd db ∈ n.fullSyncOps ∧ syncSnapshotLine db.name ∈ n.fullSyncOps := by
   unfold Node.fullSyncOps
   constructor <;>
   · rw [List.mem_flatMap]
@@ -24,7 +24,7 @@ theorem C05_full_sync_names_every_db (n : Node) (name : Bytes) (db : Db) (h : (n
 theorem C05_full_sync_names_every_key (n : Node) (name : Bytes) (db : Db) (k : Bytes) (e : Entry)
     (h : (name, db) ∈ n.dbs) (hn : db.name ≠ Gen.adminDb) (hk : (k, e) ∈ db.map)
     (h1 : k ≠ Gen.tokenKey) (h2 : k ≠ Gen.connectionsKey) :
-    (b!"replicate " ++ db.name ++ [32] ++ k ++ [32] ++ e.value) ∈ n.fullSyncOps := by
+    syncSetLine db.name k e.value ∈ n.fullSyncOps := by
   unfold Node.fullSyncOps
   rw [List.mem_flatMap]
   refine ⟨(name, db), h, ?_⟩
